@@ -34,14 +34,14 @@ var fnScriptFile = "bscript/script.go"
 // The functions of package bscript that are translated here; printed after the functions of funcs.go (they call
 // PushDataPrefix, Script.IsP2PKH, Script.IsData, isSmallIntOp), in this order (callees first).
 var fnScriptList = []fnSpec{
-	{Coq: "EncodeParts", File: "bscript/oppushdata.go", Name: "EncodeParts", Props: []string{"C13", "C20"}},
-	{Coq: "DecodeParts", File: "bscript/oppushdata.go", Name: "DecodeParts", Props: []string{"C13", "C14", "C16", "C20"}},
+	{Coq: "EncodeParts", File: "bscript/oppushdata.go", Name: "EncodeParts", Props: []string{"C13", "C20", "C04"}},
+	{Coq: "DecodeParts", File: "bscript/oppushdata.go", Name: "DecodeParts", Props: []string{"C13", "C14", "C16", "C20", "C04", "C10", "C11", "C12", "C15"}},
 	{Coq: "Script_IsP2PK", File: fnScriptFile, Recv: "Script", Name: "IsP2PK", Fields: []string{"*s"}, Props: []string{"C14"}},
 	{Coq: "Script_IsMultiSigOut", File: fnScriptFile, Recv: "Script", Name: "IsMultiSigOut", Fields: []string{"*s"}, Props: []string{"C14"}},
-	{Coq: "isP2PKHInscriptionHelper", File: fnScriptFile, Name: "isP2PKHInscriptionHelper", Props: []string{"C14", "C20"}},
-	{Coq: "Script_IsP2PKHInscription", File: fnScriptFile, Recv: "Script", Name: "IsP2PKHInscription", Fields: []string{"*s"}, Props: []string{"C14", "C20"}},
-	{Coq: "Script_ScriptType", File: fnScriptFile, Recv: "Script", Name: "ScriptType", Fields: []string{"*s"}, Props: []string{"C14", "C16"}},
-	{Coq: "Script_PublicKeyHash", File: fnScriptFile, Recv: "Script", Name: "PublicKeyHash", Props: []string{"C14", "C16"}},
+	{Coq: "isP2PKHInscriptionHelper", File: fnScriptFile, Name: "isP2PKHInscriptionHelper", Props: []string{"C14", "C20", "C04", "C10", "C11", "C12"}},
+	{Coq: "Script_IsP2PKHInscription", File: fnScriptFile, Recv: "Script", Name: "IsP2PKHInscription", Fields: []string{"*s"}, Props: []string{"C14", "C20", "C04", "C10", "C11", "C12"}},
+	{Coq: "Script_ScriptType", File: fnScriptFile, Recv: "Script", Name: "ScriptType", Fields: []string{"*s"}, Props: []string{"C14", "C16", "C04"}},
+	{Coq: "Script_PublicKeyHash", File: fnScriptFile, Recv: "Script", Name: "PublicKeyHash", Props: []string{"C14", "C16", "C15"}},
 	// the script builders: the receiver's target is state (`*s = append(*s, ...)`)
 	{Coq: "Script_AppendPushData", File: fnScriptFile, Recv: "Script", Name: "AppendPushData", State: []string{"*s"}, Props: []string{"C20"}},
 	{Coq: "Script_AppendPushDataArray", File: fnScriptFile, Recv: "Script", Name: "AppendPushDataArray", State: []string{"*s"}, Props: []string{"C20"}},
